@@ -27,3 +27,20 @@ def run(ck):
             for l in h: ck.hist(l.split()[0])
         if page == "p64": ck.sample(hist[0][:12])
         ck.kcompare(page, exe, "c01", hist, model_args=margs, corpus_prefix=page.rstrip("n"), what="B-tree (build %s: leaf %d / inode %d values) differs from the model" % ((page,) + cfg[:2]))
+
+    known_height(ck)
+
+def known_height(ck):
+    """Replay of the recorded finding: page 64 with the default maximum height."""
+    import os, subprocess
+    from vlib import REPO
+    exe = ck.cc("h_c01_p64_default_height", ["h_c01.c", os.path.join(REPO, "src/allocator.c")], flags=["-DZIX_BTREE_PAGE_SIZE=64U"])
+    if not exe: return
+    cfg = subprocess.run([exe, "--cfg"], capture_output=True, text=True).stdout.split()
+    lines = ["new %s %s %s" % tuple(cfg)] + ["ins %d" % i for i in range(1, 261)]
+    sp = ck.write_script("height.script", lines)
+    rc, out, err = ck.run_impl(exe, sp)
+    if any("exceeds-ZIX_BTREE_MAX_HEIGHT" in l for l in out):
+        e = ck.known_finding("btree-height-exceeds-max-height-on-small-pages")
+        if e: ck.hit_known(e)
+        else: ck.report_violation("height", "# property C01 — page 64 / default max height: 260 ascending inserts exceed ZIX_BTREE_MAX_HEIGHT\n#--- script\n" + "\n".join(lines[:3]) + "\n... (260 ascending inserts)\n")
